@@ -155,6 +155,13 @@ func main() {
 	l := envl.New(w)
 
 	if r.Replay != "" {
+		var rr rowReplay
+		r.LoadReplay(&rr)
+		if rr.Part == "rows" {
+			rowPart(r, l)
+			w.Close()
+			r.Finish()
+		}
 		var c caseT
 		r.LoadReplay(&c)
 		for _, rv := range envl.Revealers {
@@ -172,6 +179,8 @@ func main() {
 		w.Close()
 		r.Finish()
 	}
+
+	rowPart(r, l)
 
 	sizes := []int{13}
 	if r.Thorough() {
